@@ -20,8 +20,11 @@ rundemo() { # run from the module root that owns pkgdir
   while [ ! -f $mod/go.mod ]; do mod=$(dirname $mod); done
   local rel=${W}/$pkgdir; rel=${rel#$mod}; rel=.${rel}
   # pull out the -run pattern of the recorded command (fallback: run everything in the package)
-  local pat=$(echo "$democmd" | grep -oE -- "-run[ =]+'?\"?[^ '\"]+" | sed -E "s/-run[ =]+['\"]?//")
+  local pat=$(echo "$democmd" | grep -oE -- "-run[ =]+'?\"?[^ '\"]+" | sed -E "s/-run[ =]+['\"]?//" | head -1)
   (cd $mod && timeout 900 go test -mod=mod -vet=off -count=1 ${pat:+-run "$pat"} $rel > $W/demo.log 2>&1)
+  local rc=$?
+  if grep -q "no tests to run" $W/demo.log; then echo "NOT-CONFIRMED the demo command selects no test (pattern: $pat)"; exit 1; fi
+  return $rc
 }
 rundemo; rc0=$?
 if [ $rc0 -ne 0 ]; then echo "NOT-CONFIRMED demo does not pass WITHOUT the patch"; tail -15 $W/demo.log; exit 1; fi
